@@ -15,8 +15,7 @@ FEXP = "C06-float-exp"
 
 
 def zl(hexs):
-    b = bytes.fromhex(hexs)
-    return "(B [" + "; ".join(str(x) for x in b) + "])"
+    return '(H "%s"%%string)' % hexs.lower()
 
 
 def zz(n):
@@ -69,7 +68,7 @@ def scase_coq(c):
     return "(%d, %d, %s, %s, %s, %s)" % (st["end"], min(st["maxline"], n + 1), sched, zl(st["body"]), blocks, "true" if st["ok"] else "false")
 
 
-HEAD = ("From Coq Require Import ZArith NArith List Bool. From OG Require Import C06.Model C06.Corr.\n"
+HEAD = ("From Coq Require Import ZArith NArith List Bool String. From OG Require Import C06.Model C06.Corr.\n"
         "Import ListNotations. Open Scope Z_scope.\n")
 
 
